@@ -85,6 +85,11 @@ def generate(rnd, tier, scale):
     for _ in range(n):
         big = tier == "thorough" and rnd.random() < 0.15
         dice = gen.rand_pool(rnd, max_dice=6 if big else 4, max_faces=5 if big else 4)
+        if rnd.random() < 0.08:
+            # counts whose products exceed 2**53 and do not reduce: every count is still exact
+            bigs = [2**30 + 1, 2**30 - 1, 3**19, 2**61 - 1, 10**18 + 9]
+            memo = {}
+            dice = [[[o, memo.setdefault((o, c), c * rnd.choice(bigs)) if c else 0] for o, c in h] for h in dice]
         # len(P) may differ from len(dice) (zero-total dice are dropped), so size the selection on P
         ncur = len([h for h in dice if any(c for _, c in h)])
         yield dict(dice=dice, which=gen.rand_which(rnd, ncur))
